@@ -1,13 +1,611 @@
-// Package c11 is the harness for property C11 (runs the real kapacitor code, prints op lines).
+// Package c11 is the harness for property C11 (InfluxQL aggregation node).
+//
+// Every case is ONE real stream task on a real TaskMaster:
+//
+//	stream|from().measurement('trig')  @bsrc()|@ssrc()   |<fn>('v')[.as(..)][.usePointTimes()]   @sink()|@bsink()
+//
+// `@bsrc()` / `@ssrc()` are in-process UDF nodes (public udf.Interface, same mechanism as kit's sinks) that
+// emit the case's programmed input messages (whole batches, or stream points) followed by a barrier; the
+// kit sink below the InfluxQL node records everything that comes out. The InfluxQL node under test
+// (influxql.go / influxql.gen.go and the influxdb reducers behind it) is the unmodified code of VERIF_REPO.
 package c11
 
 import (
 	"fmt"
+	"math"
 	"os"
+	"sort"
+	"strconv"
+	"strings"
+	"sync"
+	"sync/atomic"
+	"time"
+
+	"github.com/influxdata/kapacitor"
+	"github.com/influxdata/kapacitor/edge"
+	"github.com/influxdata/kapacitor/models"
+	"github.com/influxdata/kapacitor/udf"
+	"github.com/influxdata/kapacitor/udf/agent"
+
+	"verifharness/kit"
 )
 
-// Run is replaced by the property's harness.
+// ---------------------------------------------------------------------------------------------
+// UDF service: kit's sinks + programmed sources
+
+type svc struct {
+	inner *kit.SinkUDFService
+	mu    sync.Mutex
+	progs map[string][]edge.Message // taskID -> messages to emit
+}
+
+func (s *svc) List() []string { return append(s.inner.List(), "bsrc", "ssrc") }
+func (s *svc) Info(name string) (udf.Info, bool) {
+	switch name {
+	case "bsrc":
+		return udf.Info{Wants: agent.EdgeType_STREAM, Provides: agent.EdgeType_BATCH, Options: map[string]*agent.OptionInfo{}}, true
+	case "ssrc":
+		return udf.Info{Wants: agent.EdgeType_STREAM, Provides: agent.EdgeType_STREAM, Options: map[string]*agent.OptionInfo{}}, true
+	}
+	return s.inner.Info(name)
+}
+func (s *svc) Create(name, taskID, nodeID string, d udf.Diagnostic, abortCallback func()) (udf.Interface, error) {
+	if name == "bsrc" || name == "ssrc" {
+		info, _ := s.Info(name)
+		s.mu.Lock()
+		prog := s.progs[taskID]
+		s.mu.Unlock()
+		return &srcUDF{info: info, prog: prog, in: make(chan edge.Message), out: make(chan edge.Message), done: make(chan struct{}), abrt: make(chan struct{}), abort: abortCallback}, nil
+	}
+	return s.inner.Create(name, taskID, nodeID, d, abortCallback)
+}
+
+type srcUDF struct {
+	info  udf.Info
+	prog  []edge.Message
+	in    chan edge.Message
+	out   chan edge.Message
+	done  chan struct{}
+	abrt  chan struct{}
+	abort func()
+	once  sync.Once
+}
+
+func (u *srcUDF) Open() error {
+	go func() {
+		defer close(u.done)
+		defer close(u.out)
+		sent := make(chan struct{})
+		go func() {
+			defer close(sent)
+			for _, m := range u.prog {
+				select {
+				case u.out <- m:
+				case <-u.abrt:
+					return
+				}
+			}
+		}()
+		for range u.in { // ignore whatever comes from upstream; ends on Close()
+		}
+		<-sent
+	}()
+	return nil
+}
+func (u *srcUDF) Info() (udf.Info, error)            { return u.info, nil }
+func (u *srcUDF) Init(options []*agent.Option) error { return nil }
+func (u *srcUDF) Abort(err error) {
+	u.once.Do(func() {
+		close(u.abrt)
+		if u.abort != nil {
+			go u.abort()
+		}
+	})
+}
+func (u *srcUDF) Close() error {
+	close(u.in)
+	<-u.done
+	return nil
+}
+func (u *srcUDF) Snapshot() ([]byte, error)     { return nil, nil }
+func (u *srcUDF) Restore(snapshot []byte) error { return nil }
+func (u *srcUDF) In() chan<- edge.Message       { return u.in }
+func (u *srcUDF) Out() <-chan edge.Message      { return u.out }
+
+// ---------------------------------------------------------------------------------------------
+// op text <-> messages
+
+const field = "v"
+const meas = "m"
+
+func ts(n int64) time.Time { return time.Unix(0, n).UTC() }
+
+func parseKV(tok string) ([][2]string, error) {
+	if tok == "-" {
+		return nil, nil
+	}
+	var out [][2]string
+	for _, kv := range strings.Split(tok, ",") {
+		i := strings.Index(kv, "=")
+		if i < 0 {
+			return nil, fmt.Errorf("bad kv %q", kv)
+		}
+		k, err := kit.Unesc(kv[:i])
+		if err != nil {
+			return nil, err
+		}
+		out = append(out, [2]string{k, kv[i+1:]})
+	}
+	return out, nil
+}
+
+func parseTags(tok string) (models.Tags, error) {
+	kvs, err := parseKV(tok)
+	if err != nil {
+		return nil, err
+	}
+	t := models.Tags{}
+	for _, kv := range kvs {
+		v, err := kit.Unesc(kv[1])
+		if err != nil {
+			return nil, err
+		}
+		t[kv[0]] = v
+	}
+	return t, nil
+}
+
+func parseVal(s string) (interface{}, error) {
+	if len(s) < 2 || s[1] != ':' {
+		return nil, fmt.Errorf("bad value %q", s)
+	}
+	switch s[0] {
+	case 'i':
+		v, err := strconv.ParseInt(s[2:], 10, 64)
+		return v, err
+	case 'f':
+		b, err := strconv.ParseUint(s[2:], 16, 64)
+		return math.Float64frombits(b), err
+	case 's':
+		return kit.Unesc(s[2:])
+	case 'b':
+		return s[2:] == "1", nil
+	}
+	return nil, fmt.Errorf("bad value %q", s)
+}
+
+func parseFields(tok string) (models.Fields, error) {
+	kvs, err := parseKV(tok)
+	if err != nil {
+		return nil, err
+	}
+	f := models.Fields{}
+	for _, kv := range kvs {
+		v, err := parseVal(kv[1])
+		if err != nil {
+			return nil, err
+		}
+		f[kv[0]] = v
+	}
+	return f, nil
+}
+
+func merge(a, b models.Tags) models.Tags {
+	t := make(models.Tags, len(a)+len(b))
+	for k, v := range b {
+		t[k] = v
+	}
+	for k, v := range a {
+		t[k] = v
+	}
+	return t
+}
+
+type cfg struct {
+	mode string // batch | stream
+	fn   string
+	as   string // "-" = default
+	pt   bool
+	arg  string
+}
+
+func (c cfg) outIsBatch() bool {
+	switch c.fn {
+	case "distinct", "top", "bottom":
+		return true
+	case "elapsed", "difference", "cumulativeSum", "movingAverage":
+		return c.mode == "batch"
+	}
+	return false
+}
+
+func (c cfg) script() (string, error) {
+	var b strings.Builder
+	b.WriteString("stream\n    |from().measurement('trig')\n")
+	if c.mode == "batch" {
+		b.WriteString("    @bsrc()\n")
+	} else {
+		b.WriteString("    @ssrc()\n")
+	}
+	switch c.fn {
+	case "count", "sum", "mean", "median", "mode", "min", "max", "first", "last", "spread", "stddev", "distinct", "difference", "cumulativeSum":
+		fmt.Fprintf(&b, "    |%s('%s')\n", c.fn, field)
+	case "percentile":
+		if !strings.HasPrefix(c.arg, "p:") {
+			return "", fmt.Errorf("percentile needs p:")
+		}
+		bits, err := strconv.ParseUint(c.arg[2:], 16, 64)
+		if err != nil {
+			return "", err
+		}
+		fmt.Fprintf(&b, "    |percentile('%s', %s)\n", field, strconv.FormatFloat(math.Float64frombits(bits), 'f', -1, 64))
+	case "top", "bottom", "movingAverage":
+		if !strings.HasPrefix(c.arg, "n:") {
+			return "", fmt.Errorf("%s needs n:", c.fn)
+		}
+		n, err := strconv.ParseInt(c.arg[2:], 10, 64)
+		if err != nil {
+			return "", err
+		}
+		if c.fn == "movingAverage" {
+			fmt.Fprintf(&b, "    |movingAverage('%s', %d)\n", field, n)
+		} else {
+			fmt.Fprintf(&b, "    |%s(%d, '%s')\n", c.fn, n, field)
+		}
+	case "elapsed":
+		if !strings.HasPrefix(c.arg, "u:") {
+			return "", fmt.Errorf("elapsed needs u:")
+		}
+		n, err := strconv.ParseInt(c.arg[2:], 10, 64)
+		if err != nil {
+			return "", err
+		}
+		fmt.Fprintf(&b, "    |elapsed('%s', %dns)\n", field, n)
+	default:
+		return "", fmt.Errorf("unknown fn %q", c.fn)
+	}
+	if c.as != "-" {
+		as, err := kit.Unesc(c.as)
+		if err != nil {
+			return "", err
+		}
+		fmt.Fprintf(&b, "        .as('%s')\n", strings.ReplaceAll(as, "'", "\\'"))
+	}
+	if c.pt {
+		b.WriteString("        .usePointTimes()\n")
+	}
+	if c.outIsBatch() {
+		b.WriteString("    @bsink()\n")
+	} else {
+		b.WriteString("    @sink()\n")
+	}
+	return b.String(), nil
+}
+
+func parsePoint(tok string, gtags models.Tags) (time.Time, models.Tags, models.Fields, error) {
+	p := strings.Split(tok, "|")
+	if len(p) != 3 {
+		return time.Time{}, nil, nil, fmt.Errorf("bad point %q", tok)
+	}
+	t, err := strconv.ParseInt(p[0], 10, 64)
+	if err != nil {
+		return time.Time{}, nil, nil, err
+	}
+	tags, err := parseTags(p[1])
+	if err != nil {
+		return time.Time{}, nil, nil, err
+	}
+	fields, err := parseFields(p[2])
+	if err != nil {
+		return time.Time{}, nil, nil, err
+	}
+	return ts(t), merge(gtags, tags), fields, nil
+}
+
+// buildProg turns the input lines of a case into edge messages.
+func buildProg(lines [][]string) ([]edge.Message, error) {
+	var prog []edge.Message
+	for _, t := range lines {
+		switch t[0] {
+		case "b": // b <gtags> <tmax> <points|->
+			if len(t) != 4 {
+				return nil, fmt.Errorf("bad b line")
+			}
+			gt, err := parseTags(t[1])
+			if err != nil {
+				return nil, err
+			}
+			tmax, err := strconv.ParseInt(t[2], 10, 64)
+			if err != nil {
+				return nil, err
+			}
+			var pts []edge.BatchPointMessage
+			if t[3] != "-" {
+				for _, ptok := range strings.Split(t[3], ";") {
+					tm, tags, fields, err := parsePoint(ptok, gt)
+					if err != nil {
+						return nil, err
+					}
+					pts = append(pts, edge.NewBatchPointMessage(fields, tags, tm))
+				}
+			}
+			begin := edge.NewBeginBatchMessage(meas, gt, false, ts(tmax), len(pts))
+			prog = append(prog, edge.NewBufferedBatchMessage(begin, pts, edge.NewEndBatchMessage()))
+		case "p": // p <gtags> <time|tags|fields>
+			if len(t) != 3 {
+				return nil, fmt.Errorf("bad p line")
+			}
+			gt, err := parseTags(t[1])
+			if err != nil {
+				return nil, err
+			}
+			tm, tags, fields, err := parsePoint(t[2], gt)
+			if err != nil {
+				return nil, err
+			}
+			dims := models.Dimensions{TagNames: models.SortedKeys(gt)}
+			prog = append(prog, edge.NewPointMessage(meas, "db", "rp", dims, fields, tags, tm))
+		default:
+			return nil, fmt.Errorf("unknown op %q", t[0])
+		}
+	}
+	return prog, nil
+}
+
+func dimsStr(d models.Dimensions) string {
+	if len(d.TagNames) == 0 {
+		return "-"
+	}
+	var b []string
+	for _, n := range d.TagNames {
+		b = append(b, kit.Esc(n))
+	}
+	return strings.Join(b, ",")
+}
+
+// canon replaces NaN payloads by the canonical quiet NaN (the driver does the same).
+func canon(f models.Fields) models.Fields {
+	c := make(models.Fields, len(f))
+	for k, v := range f {
+		if x, ok := v.(float64); ok && math.IsNaN(x) {
+			v = math.Float64frombits(0x7ff8000000000000)
+		}
+		c[k] = v
+	}
+	return c
+}
+
+func render(msgs []edge.Message) (out []string, sawBarrier bool) {
+	var open edge.BeginBatchMessage
+	var openPts []string
+	for _, m := range msgs {
+		switch x := m.(type) {
+		case edge.PointMessage:
+			out = append(out, fmt.Sprintf("P|%d|%s|%s|%s", x.Time().UnixNano(), dimsStr(x.Dimensions()), kit.TagsStr(x.Tags()), kit.FieldsStr(canon(x.Fields()))))
+		case edge.BufferedBatchMessage:
+			out = append(out, fmt.Sprintf("B|%d|%s|%d", x.Begin().Time().UnixNano(), kit.TagsStr(x.Begin().Tags()), len(x.Points())))
+			for _, p := range x.Points() {
+				out = append(out, fmt.Sprintf("Q|%d|%s|%s", p.Time().UnixNano(), kit.TagsStr(p.Tags()), kit.FieldsStr(canon(p.Fields()))))
+			}
+		case edge.BeginBatchMessage:
+			open, openPts = x, nil
+		case edge.BatchPointMessage:
+			openPts = append(openPts, fmt.Sprintf("Q|%d|%s|%s", x.Time().UnixNano(), kit.TagsStr(x.Tags()), kit.FieldsStr(canon(x.Fields()))))
+		case edge.EndBatchMessage:
+			if open == nil {
+				out = append(out, "X|end-without-begin")
+				continue
+			}
+			out = append(out, fmt.Sprintf("B|%d|%s|%d", open.Time().UnixNano(), kit.TagsStr(open.Tags()), len(openPts)))
+			out = append(out, openPts...)
+			open, openPts = nil, nil
+		case edge.BarrierMessage:
+			sawBarrier = true
+		default:
+			out = append(out, "X|"+kit.Esc(fmt.Sprintf("%T", m)))
+		}
+	}
+	if open != nil {
+		out = append(out, "X|unterminated-batch")
+	}
+	return
+}
+
+// ---------------------------------------------------------------------------------------------
+// running one case
+
+type H struct {
+	tm  *kit.TM
+	svc *svc
+	seq int64
+}
+
+func newH() (*H, error) {
+	tm, err := kit.NewTM(kit.TMOpts{})
+	if err != nil {
+		return nil, err
+	}
+	s := &svc{inner: tm.Sink, progs: map[string][]edge.Message{}}
+	tm.TM.UDFService = s
+	return &H{tm: tm, svc: s}, nil
+}
+
+func stripObs(l string) string {
+	if i := strings.Index(l, " => "); i >= 0 {
+		return l[:i]
+	}
+	return l
+}
+
+func (h *H) execCase(ops []string) []string {
+	var out []string
+	var c *cfg
+	var inputs [][]string
+	finalSeen := false
+	for _, raw := range ops {
+		line := stripObs(raw)
+		t := strings.Fields(line)
+		if len(t) == 0 {
+			continue
+		}
+		switch t[0] {
+		case "cfg":
+			if len(t) != 6 {
+				out = append(out, line)
+				continue
+			}
+			c = &cfg{mode: t[1], fn: t[2], as: t[3], pt: t[4] == "1", arg: t[5]}
+			out = append(out, line)
+		case "b", "p":
+			inputs = append(inputs, t)
+			out = append(out, line)
+		case "final":
+			finalSeen = true
+			out = append(out, line+" => "+h.run(c, inputs))
+		default:
+			out = append(out, line)
+		}
+	}
+	if !finalSeen {
+		out = append(out, "final => "+h.run(c, inputs))
+	}
+	return out
+}
+
+func (h *H) run(c *cfg, inputs [][]string) string {
+	if c == nil {
+		return "err:nocfg"
+	}
+	script, err := c.script()
+	if err != nil {
+		return "err:cfg"
+	}
+	prog, err := buildProg(inputs)
+	if err != nil {
+		return "err:input"
+	}
+	endTags := models.Tags{"zzend": "1"}
+	endGroup := edge.GroupInfo{ID: models.ToGroupID(meas, endTags, models.Dimensions{TagNames: []string{"zzend"}}), Tags: endTags, Dimensions: models.Dimensions{TagNames: []string{"zzend"}}}
+	prog = append(prog, edge.NewBarrierMessage(endGroup, ts(1<<50)))
+	id := fmt.Sprintf("c11-%d", atomic.AddInt64(&h.seq, 1))
+	h.svc.mu.Lock()
+	h.svc.progs[id] = prog
+	h.svc.mu.Unlock()
+	defer func() {
+		h.svc.mu.Lock()
+		delete(h.svc.progs, id)
+		h.svc.mu.Unlock()
+	}()
+	et, err := h.tm.StartStream(id, script, []kapacitor.DBRP{{Database: "db", RetentionPolicy: "rp"}})
+	if err != nil {
+		if os.Getenv("VERIF_LOG") != "" {
+			fmt.Fprintln(os.Stderr, "start:", err, "\n", script)
+		}
+		return "err:start"
+	}
+	died := make(chan struct{})
+	go func() { et.Wait(); close(died) }()
+	key := ""
+	deadline := time.Now().Add(10 * time.Second)
+	status := "ok"
+	var msgs []edge.Message
+	sleep := 50 * time.Microsecond
+	dead := false
+	for {
+		if key == "" {
+			for _, k := range h.tm.Rec.Keys() {
+				if strings.HasPrefix(k, id+"/") {
+					key = k
+				}
+			}
+		}
+		if key != "" {
+			msgs = h.tm.Rec.Get(key)
+			if len(msgs) > 0 {
+				if _, ok := msgs[len(msgs)-1].(edge.BarrierMessage); ok {
+					break
+				}
+			}
+		}
+		if dead {
+			status = "dead"
+			break
+		}
+		select {
+		case <-died:
+			dead = true // look once more at what was recorded, then give up
+			continue
+		default:
+		}
+		if time.Now().After(deadline) {
+			status = "timeout"
+			break
+		}
+		time.Sleep(sleep)
+		if sleep < 2*time.Millisecond {
+			sleep *= 2
+		}
+	}
+	h.tm.TM.DeleteTask(id)
+	h.tm.Rec.Reset()
+	toks, _ := render(msgs)
+	res := status
+	if len(toks) > 0 {
+		res += " " + strings.Join(toks, " ")
+	}
+	return res
+}
+
+// ---------------------------------------------------------------------------------------------
+
+func emit(out *kit.Out, id string, lines []string) {
+	out.Line("case", id)
+	for _, l := range lines {
+		out.Line(l)
+	}
+	out.Line("end")
+}
+
+var _ = sort.Strings
+
+// Run: `vh-c11 -seed S -n N [-tier thorough]` generates; `vh-c11 -ops file` re-executes the cases of a file.
 func Run(args []string) int {
-	fmt.Fprintln(os.Stderr, "c11: harness not implemented yet")
-	return 3
+	f := kit.ParseFlags(args)
+	out := kit.NewOut()
+	defer out.Flush()
+	h, err := newH()
+	if err != nil {
+		fmt.Fprintln(os.Stderr, "c11: cannot build the task master:", err)
+		return 2
+	}
+	defer h.tm.Close()
+	if f.Ops != "" {
+		lines, err := kit.ReadLines(f.Ops)
+		if err != nil {
+			fmt.Fprintln(os.Stderr, err)
+			return 2
+		}
+		var cur []string
+		id := ""
+		for _, l := range lines {
+			t := strings.Fields(l)
+			switch {
+			case len(t) == 2 && t[0] == "case":
+				id, cur = t[1], nil
+			case len(t) == 1 && t[0] == "end":
+				emit(out, id, h.execCase(cur))
+			default:
+				cur = append(cur, l)
+			}
+		}
+		return 0
+	}
+	r := kit.NewRand(f.Seed)
+	for i := 0; i < f.N; i++ {
+		emit(out, fmt.Sprintf("g%d", i), h.execCase(genCase(r.Fork(), i, f.Tier)))
+		if i%50 == 0 {
+			out.Flush()
+		}
+	}
+	return 0
 }
